@@ -6,7 +6,7 @@ namespace PriorV
 
 /-- the entry of `env` that a Python dict built from it would hold under `n` has this unit dimension -/
 def HasDim (env : List Param) (n : Name) (d : Dim) : Prop :=
-  ∃ par, lookup env n = some par ∧ par.unit = some d
+  ∃ par, lookup env n = some par ∧ par.unit = some d ∧ par.named = true
 
 /-- the entry under `n` is an independent Normal random variable (constant parameters) or — for `K` only, whose
 dependence on `P, e` the kernel implements — a FixedCompanionMass -/
@@ -31,24 +31,25 @@ theorem checkPresence_ok_iff (env : List Param) : ∀ req : List (Name × Dim),
     cases hl : lookup env n with
     | none => simp [HasDim, hl]
     | some par =>
-      obtain ⟨nm, un, k⟩ := par
+      obtain ⟨nm, un, k, nd⟩ := par
       cases un with
       | none => simp [HasDim, hl]
       | some u =>
-        by_cases hud : u = d
-        · subst hud
-          simp only [if_true]
+        by_cases hud : u = d ∧ nd = true
+        · obtain ⟨hu, hn⟩ := hud
+          subst hu; subst hn
+          simp only [and_self, if_true]
           rw [ih]
           constructor
-          · intro h; exact ⟨⟨_, hl, rfl⟩, h⟩
+          · intro h; exact ⟨⟨_, hl, rfl, rfl⟩, h⟩
           · intro h; exact h.2
         · simp only [hud, if_false]
           constructor
           · intro h; cases h
-          · rintro ⟨⟨par', hl', hu'⟩, _⟩
+          · rintro ⟨⟨par', hl', hu', hn'⟩, _⟩
             rw [hl] at hl'; cases hl'
-            cases hu'
-            exact absurd rfl hud
+            simp only [Option.some.injEq] at hu'
+            exact absurd ⟨hu', hn'⟩ hud
 
 theorem checkPresence_error_value (env : List Param) : ∀ (req : List (Name × Dim)) (e : Err),
     checkPresence env req = .error e → e = .value := by
@@ -77,7 +78,7 @@ theorem checkLinear_ok_iff (env : List Param) : ∀ names : List Name,
     cases hl : lookup env n with
     | none => simp [IsNormal, hl]
     | some par =>
-      obtain ⟨nm, un, k⟩ := par
+      obtain ⟨nm, un, k, nd⟩ := par
       cases k with
       | normal =>
         simp only []
